@@ -149,6 +149,7 @@ Print Assumptions c15_wake_tso_close.
 
 Theorem c15_wake_tso_without_fence_refuted : batch_wake_safe false = false.
 Proof. exact batch_wake_unfenced_refuted. Qed.
+Print Assumptions c15_wake_tso_without_fence_refuted.
 
 (* ---- "with the publisher's writes fully visible": the release/acquire half on the view machine (coq/WM/RA.v).
    publisher = fill the slot, release fence, relaxed status store; consumer = relaxed status load, acquire fence,
